@@ -420,7 +420,7 @@ func c10SizeSweep(c *Ctx, idx *int64) {
 
 func init() {
 	addCheck(&Check{Flows: []flowOracle{flowTransparent}, ID: "C10", Level: "model_checking",
-		Rule: "all sequences of length 1-3 (thorough 1-4) over a 16-shape datagram alphabet (empty datagram, leading CRLFs in front of a complete / an over-declared / a cut message, small, 60 KiB with distinctive filler, with body, declared length larger / much larger / smaller than the payload, cut inside start line / header / blank line / body, blanks only, two messages in one datagram), delivered with quiescence in between (the LIFO pool recycles the dirty buffer) and back-to-back, from one and from two sources, plus {any datagram handled to quiescence, then a burst of three}, plus a size sweep (well-formed datagrams of exactly n bytes for n around every power of two and the MTU up to 65507 - thorough: also every n in 400..4200 - each in nine burst patterns with small / over-declared / equal-sized neighbours); differential oracle: what is relayed for a datagram inside the sequence equals byte for byte (fresh branch masked) what a fresh world relays for it alone, and incomplete / over-declared datagrams are never relayed; schedule exploration of the receive / parse / loop goroutines under the race detector, for one UDP listener and for two listens entries receiving at the same time: see the race tier; non-trivial = sequence of at least two datagrams",
+		Rule: "all sequences of length 1-3 (thorough 1-4) over a 17-shape datagram alphabet (a message whose branch is the same at every position, empty datagram, leading CRLFs in front of a complete / an over-declared / a cut message, small, 60 KiB with distinctive filler, with body, declared length larger / much larger / smaller than the payload, cut inside start line / header / blank line / body, blanks only, two messages in one datagram), delivered with quiescence in between (the LIFO pool recycles the dirty buffer) and back-to-back, from one and from two sources, plus {any datagram handled to quiescence, then a burst of three}, plus a size sweep (well-formed datagrams of exactly n bytes for n around every power of two and the MTU up to 65507 - thorough: also every n in 400..4200 - each in nine burst patterns with small / over-declared / equal-sized neighbours); differential oracle: what is relayed for a datagram inside the sequence equals byte for byte (fresh branch masked) what a fresh world relays for it alone, and incomplete / over-declared datagrams are never relayed; schedule exploration of the receive / parse / loop goroutines under the race detector, for one UDP listener and for two listens entries receiving at the same time: see the race tier; non-trivial = sequence of at least two datagrams",
 		Run:  c10Run,
 		Replay: func(c *Ctx, raw json.RawMessage) string {
 			var cs c10Case
